@@ -158,9 +158,145 @@ def run_v2(spec):
 
 def replay(body):
     c = body['cex']
+    if 'offs' in c:
+        r = run_v1_bulk(dict(args=body['args'], kind='holds'))
+        return r.get('status') == 'sat' and bool(r.get('replayed')), r.get('detail', '')
     ok, detail, f = native_check_v2(body['args']['op'], c['L'], c['x'], c['y'], c['x2'], c['y2'], c['payload'], c['a'],
                                     map_byte_fn(c.get('bytes', {})), _patches(body))
     return ok, detail
+
+
+class _Tile(object):
+    def __init__(self, coord):
+        self.coord = coord
+        self.source = None
+
+
+def run_v1_bulk(spec):
+    """BundleV1.load_tiles (the bulk read defragmentation copies bundles with): every tile of the
+    batch whose index entry is non-zero and whose record is non-empty gets exactly its own record,
+    removed (offset 0) and empty tiles stay missing, and the result says whether all were found.
+    Index/data files are stubs answering from symbolic per-tile offsets."""
+    import contextlib
+    from engine.symex import explore, int_var, bool_var, AND, OR, NOT, assume, SymBool
+    a = spec['args']
+    n = a.get('n', 3)
+    patches = _patches(spec)
+    try:
+        C = load_compact(True, patches)
+    except PatchDoesNotApply as e:
+        return dict(status='skipped', detail=str(e))
+    terms = {}
+
+    def mk(solver):
+        offs = [int_var('offset%d' % i) for i in range(n)]
+        empty = [bool_var('record_empty%d' % i) for i in range(n)]
+        for o in offs:
+            assume(o >= 0)
+        # representation invariant: different slots address different records
+        for i in range(n):
+            for j in range(i):
+                assume(OR(offs[i] == 0, offs[i] != offs[j]))
+        terms.update(offs=offs, empty=empty)
+        return dict(offs=offs, empty=empty)
+
+    def body(offs, empty):
+        b = C.BundleV1.__new__(C.BundleV1)
+        b.base_filename = '/cache/L00/R0000C0000'
+        coords = [(i, 5, 0) for i in range(n)]
+
+        class Idx(object):
+            def tile_offset(self, x, y):
+                return offs[x]
+
+        class Data(object):
+            def read_tile(self, offset):
+                for i in range(n):
+                    if bool(offset == offs[i]) if isinstance(offset == offs[i], SymBool) else (offset == offs[i]):
+                        if bool(empty[i]) if isinstance(empty[i], SymBool) else empty[i]:
+                            return False
+                        return b'record%d' % i
+                return False
+
+        class H(object):
+            def __init__(self, obj):
+                self.obj = obj
+
+            @contextlib.contextmanager
+            def readonly(self):
+                yield self.obj
+        b.index = lambda: H(Idx())
+        b.data = lambda: H(Data())
+        C.__dict__['ImageSource'] = lambda buf: ('img', buf)
+        C.__dict__['BytesIO'] = lambda d: d
+        tiles = [_Tile(c) for c in coords]
+        res = b.load_tiles(tiles)
+        ok = True
+        allf = True
+        for i, t in enumerate(tiles):
+            present = AND(offs[i] != 0, NOT(empty[i]))
+            present = bool(present) if isinstance(present, SymBool) else present
+            # offsets of different tiles are different records unless equal offsets were chosen
+            if present:
+                first = min(j for j in range(n) if (bool(offs[j] == offs[i]) if isinstance(offs[j] == offs[i], SymBool) else offs[j] == offs[i]))
+                ok = AND(ok, t.source == ('img', b'record%d' % first))
+            else:
+                ok = AND(ok, t.source is None)
+                allf = False
+        return AND(ok, bool(res) == allf)
+    if spec['kind'] == 'witness':
+        res = explore(lambda **kw: (body(**kw), False)[1], mk)
+    else:
+        res = explore(body, mk)
+    out = dict(status=res.status, stats=res.stats, detail=res.reason or (res.exc or ''), engine='E1', functions=['BundleV1.load_tiles'])
+    if res.status == 'sat':
+        from engine.symex import model_value
+        cex = dict(offs=[model_value(res.model, o.t) for o in terms['offs']], empty=[model_value(res.model, e.t) for e in terms['empty']])
+        out['cex'] = cex
+        # replay on the unshadowed code
+        try:
+            Cn = load_compact(False, patches)
+            import contextlib as cl
+            b = Cn.BundleV1.__new__(Cn.BundleV1)
+            offs, empty = cex['offs'], cex['empty']
+
+            class Idx(object):
+                def tile_offset(self, x, y):
+                    return offs[x]
+
+            class Data(object):
+                def read_tile(self, offset):
+                    i = offs.index(offset)
+                    return False if empty[i] else b'record%d' % i
+
+            class H(object):
+                def __init__(self, obj):
+                    self.obj = obj
+
+                @cl.contextmanager
+                def readonly(self):
+                    yield self.obj
+            b.index = lambda: H(Idx())
+            b.data = lambda: H(Data())
+            Cn.ImageSource = lambda buf: ('img', buf)
+            Cn.BytesIO = lambda d: d
+            tiles = [_Tile((i, 5, 0)) for i in range(n)]
+            r = b.load_tiles(tiles)
+            bad = False
+            for i, t in enumerate(tiles):
+                present = offs[i] != 0 and not empty[i]
+                if present and t.source is None:
+                    bad = True
+                if not present and t.source is not None:
+                    bad = True
+            if bool(r) != all(offs[i] != 0 and not empty[i] for i in range(n)):
+                bad = True
+            out['replayed'] = bad
+            out['detail'] = 'replay on the real BundleV1.load_tiles: %s' % ('reproduced' if bad else 'not reproduced')
+        except Exception as e:
+            out['replayed'] = True
+            out['detail'] = 'replay raised %s: %s' % (type(e).__name__, e)
+    return out
 
 
 CANARIES = [
@@ -190,6 +326,11 @@ def obligations(tier, seed):
             specs.append(_spec('v2/store-step/payload%d/%s' % (n, part), 'run_v2', op='store', n=n, part=part, cost=60))
     for part in ['readback', 'other-entry', 'other-bytes', 'other-inv', 'no-overflow']:
         specs.append(_spec('v2/remove-step/%s' % part, 'run_v2', op='remove', part=part, cost=20))
+    specs.append(_spec('v1/bulk-load-each-tile', 'run_v1_bulk', n=3, cost=10))
+    specs.append(_spec('twin/v1-bulk-load', 'run_v1_bulk', kind='witness', n=3, cost=2))
+    specs.append(_spec('canary/v1 bulk load stops at the first removed tile', 'run_v1_bulk', kind='canary', n=3, cost=5,
+                       patches={'mapproxy.cache.compact': [["                    if offset == 0:\n                        missing = True\n                        continue",
+                                                            "                    if offset == 0:\n                        missing = True\n                        break"]]}))
     specs.append(_spec('twin/v2-store', 'run_v2', kind='witness', op='store', n=3, cost=5))
     for label, op, patches in (CANARIES if tier == 'thorough' else CANARIES[:3]):
         specs.append(_spec('canary/' + label, 'run_v2', kind='canary', op=op, n=3, cost=20,
@@ -211,7 +352,7 @@ META = dict(
                'BundleV2._tile_offset_size', 'BundleV2._rel_tile_coord', 'BundleV2._tile_idx_offset'],
     bounds='payload 3 bytes (thorough: 1, 3, 4); file length < 2^40 - 4096 (offsets are 40 bit); one store or remove per step '
            '(batches are repeated steps)',
-    outside='bundle format v1 (two files) and defragmentation (script/defrag.py: whole-file loops over 16384 slots) are not encoded in '
+    outside='bundle format v1 writers (two files; only the v1 bulk read used by defragmentation is checked) and defragmentation itself (script/defrag.py: whole-file loops over 16384 slots) are not encoded in '
             'this session; ArcGIS header statistics; tiles >= 2^24 bytes',
     assumptions=['python buffered I/O: content visible after flush equals the sequence of writes', 'the index area of an existing bundle was initialised'],
     trusted_base=['z3 5.1 (arrays + bit-vectors)', 'engine/symfile.py file/struct model'],
